@@ -354,7 +354,8 @@ def run_check(prop, tier, seed, workers, budget_s=None, only=None):
         'coverage': cov, 'assumptions': list(mod.ASSUMPTIONS), 'wall_s': round(wall, 2),
         'violations': len(unknown),
     }
-    os.makedirs(EVIDENCE_DIR, exist_ok=True)
+    evidence_dir = EVIDENCE_DIR if only is None else '/dev/shm/verif_partial_evidence'   # --only is a debugging aid
+    os.makedirs(evidence_dir, exist_ok=True)
     try:
         import jsonschema
         with open('/root/.vp/EVIDENCE.schema.json') as f:
@@ -363,7 +364,7 @@ def run_check(prop, tier, seed, workers, budget_s=None, only=None):
         pass
     except FileNotFoundError:
         pass
-    with open(os.path.join(EVIDENCE_DIR, prop + '.json'), 'w') as f:
+    with open(os.path.join(evidence_dir, prop + '.json'), 'w') as f:
         json.dump(ev, f, indent=1, default=str)
     print('%s tier=%s seed=%d cases=%d/%d evals=%d nontrivial=%d outcomes=%d states=%d transitions=%d '
           'known=%d unlisted=%d exhaustive=%s wall=%.1fs'
